@@ -44,6 +44,16 @@ def consistent(a, b):
 
 
 def comparator_fn(case, wit):
+    from ..common import Violation
+    try:
+        return _comparator_fn(case, wit)
+    except Violation:
+        raise
+    except Exception as e:  # noqa  (every comparison of two accepted same-side orders must be defined)
+        raise Violation("C02.comparator_raises", "comparing two accepted orders of one side raised", "case %r: %r" % (case, e))
+
+
+def _comparator_fn(case, wit):
     """all pairs and triples (first element fixed by the case) of accepted same-side orders"""
     from ..common import Violation
     from ..explore_m import K
@@ -55,7 +65,11 @@ def comparator_fn(case, wit):
         wit.inc("domain_close_prices")
     a_s = dom[i]
     a = _mk(side, a_s)
-    if not (not (a < a) and not (a > a) and a == a and a <= a and a >= a and not (a != a)):
+    try:
+        refl = (not (a < a) and not (a > a) and a == a and a <= a and a >= a and not (a != a))
+    except Exception as e:  # noqa
+        raise Violation("C02.comparator_raises", "comparing two accepted orders of one side raised", "side %s: %r with itself: %r" % ("buy" if side else "sell", a_s, e))
+    if not refl:
         raise Violation("C02.comparator", "comparison of an order with itself is not reflexive-equal", "%r" % (a_s,))
     n = 0
     for j in range(len(dom)):
